@@ -28,6 +28,7 @@ const (
 type tracker struct {
 	w         *World
 	jobByRV   map[string]*execution.Job // every Job version ever stored, by resourceVersion
+	podByRV   map[string]*corev1.Pod
 	jobsByUID map[string]*jobTrack
 	podCreates map[string][]*podCreate // by job UID
 	dynHist   []dynSnap
@@ -61,7 +62,7 @@ type dynSnap struct {
 }
 
 func newTracker(w *World) *tracker {
-	t := &tracker{w: w, jobByRV: map[string]*execution.Job{}, jobsByUID: map[string]*jobTrack{}, podCreates: map[string][]*podCreate{}}
+	t := &tracker{w: w, podByRV: map[string]*corev1.Pod{}, jobByRV: map[string]*execution.Job{}, jobsByUID: map[string]*jobTrack{}, podCreates: map[string][]*podCreate{}}
 	t.snapDyn()
 	w.API.Listen(t.onEvent)
 	w.onUserOp = append(w.onUserOp, func(op *UserOp, err error) {
@@ -123,6 +124,7 @@ func (t *tracker) onEvent(ev *APIEvent) {
 			jt.everInStatus[ref.Name] = true
 		}
 	case ResPods:
+		t.podByRV[accessor(ev.Obj).GetResourceVersion()] = ev.Obj.(*corev1.Pod)
 		if ev.Type != "ADDED" {
 			return
 		}
